@@ -24,5 +24,5 @@ Example C17_src_thickpoints_nonvacuous :
   match src_ThickPoints_new 30 (L (P 0 0) (P 3 0)) 2 with
   | Some s0 => src_thick_run 20 30 s0 = thick_points (L (P 0 0) (P 3 0)) 2
   | None => False
-  end /\ thick_points (L (P 0 0) (P 3 0)) 2 = Some [P 0 0; P 1 0; P 2 0; P 3 0; P 0 1; P 1 1; P 2 1; P 3 1].
+  end /\ thick_points (L (P 0 0) (P 3 0)) 2 = Some [P 0 0; P 1 0; P 2 0; P 3 0; P 0 (-1); P 1 (-1); P 2 (-1); P 3 (-1)].
 Proof. split; vm_compute; reflexivity. Qed.
